@@ -32,6 +32,17 @@ Definition projc {A} (n : N) (l : list (N * A)) : list A :=
 
 Definition yupd {A} (f : N -> A) (n : N) (v : A) : N -> A := fun k => if k =? n then v else f k.
 
+(* what travels server -> client on a channel: a reply, or the server's Channel.Close *)
+Inductive witem := WReply (v : N) | WClose.
+(* what the I/O thread puts on a channel's reply queue: a reply, or its verdict that the server
+   has closed the channel (ServerClosedChannel) *)
+Inductive ritem := RVal (v : N) | RVerdict.
+
+Definition wvals (l : list witem) : list N := flat_map (fun x => match x with WReply v => [v] | WClose => [] end) l.
+Definition rvals (l : list ritem) : list N := flat_map (fun x => match x with RVal v => [v] | RVerdict => [] end) l.
+Definition ncloses (l : list witem) : nat := length (filter (fun x => match x with WClose => true | _ => false end) l).
+Definition nverdicts (l : list ritem) : nat := length (filter (fun x => match x with RVerdict => true | _ => false end) l).
+
 Record ychan := {
   yc_prog : list call;       (* what the caller still has to issue *)
   yc_wait : bool;            (* the caller is blocked in recv on its reply queue *)
@@ -39,16 +50,20 @@ Record ychan := {
   yc_results : list N;       (* ghost: what the calls returned, oldest first *)
   yc_mail : list call;       (* mailbox caller -> I/O thread *)
   yc_pend : list N;          (* server: synchronous requests read and not yet answered *)
-  yc_replyq : list N;        (* reply queue I/O thread -> caller *)
-  yc_failed : bool }.        (* a call returned an error: the caller gave up *)
+  yc_replyq : list ritem;    (* reply queue I/O thread -> caller *)
+  yc_failed : bool;          (* a call returned an error: the caller gave up *)
+  yc_srv_closed : bool;      (* the server has closed this channel: it answers nothing more on it *)
+  yc_slot_gone : bool }.     (* the I/O thread has processed that close: the slot (mailbox receiver,
+                                reply sender) is gone *)
 
 Record sys := {
   y_ch : N -> ychan;
   y_outbuf : list (N * call);    (* the I/O thread's out-buffer, whole frames *)
   y_outwire : list (N * call);   (* written, not yet read by the server *)
   y_seen : list (N * call);      (* ghost: every frame the server has read so far, in order *)
-  y_inwire : list (N * N);       (* server -> client: (channel, reply) *)
-  y_fail : bool;                 (* a reply found its queue full: FrameUnexpected, the loop ends *)
+  y_inwire : list (N * witem);   (* server -> client *)
+  y_fail : bool;                 (* a reply found its queue full (FrameUnexpected) or its channel
+                                    gone (ReceivedFrameWithBogusChannelId): the loop ends *)
   y_dead : bool }.               (* the I/O thread has ended (EOF, I/O error, missed heartbeats, a close, ...)
                                     and dropped its ends of every queue *)
 
@@ -59,12 +74,27 @@ Inductive act :=
 | AWrite (k : nat)               (* I/O: socket writable, k frames accepted *)
 | ASrvRead                       (* server: read the next frame *)
 | ASrvAnswer (n : N)             (* server: answer the oldest unanswered request of channel n *)
+| ASrvClose (n : N)              (* server: close channel n (once), at any moment *)
 | ARead                          (* I/O: socket readable, one frame processed *)
 | ADie.                          (* the I/O thread ends, for whatever reason, at any moment *)
 
 Definition with_ch (s : sys) (n : N) (c : ychan) : sys :=
   {| y_ch := yupd (y_ch s) n c; y_outbuf := y_outbuf s; y_outwire := y_outwire s; y_seen := y_seen s;
      y_inwire := y_inwire s; y_fail := y_fail s; y_dead := y_dead s |}.
+
+(* updates of single fields of a channel *)
+Definition ch_set_mail (c : ychan) (m : list call) : ychan :=
+  {| yc_prog := yc_prog c; yc_wait := yc_wait c; yc_issued := yc_issued c; yc_results := yc_results c;
+     yc_mail := m; yc_pend := yc_pend c; yc_replyq := yc_replyq c; yc_failed := yc_failed c;
+     yc_srv_closed := yc_srv_closed c; yc_slot_gone := yc_slot_gone c |}.
+Definition ch_set_pend (c : ychan) (p : list N) : ychan :=
+  {| yc_prog := yc_prog c; yc_wait := yc_wait c; yc_issued := yc_issued c; yc_results := yc_results c;
+     yc_mail := yc_mail c; yc_pend := p; yc_replyq := yc_replyq c; yc_failed := yc_failed c;
+     yc_srv_closed := yc_srv_closed c; yc_slot_gone := yc_slot_gone c |}.
+Definition ch_set_replyq (c : ychan) (q : list ritem) : ychan :=
+  {| yc_prog := yc_prog c; yc_wait := yc_wait c; yc_issued := yc_issued c; yc_results := yc_results c;
+     yc_mail := yc_mail c; yc_pend := yc_pend c; yc_replyq := q; yc_failed := yc_failed c;
+     yc_srv_closed := yc_srv_closed c; yc_slot_gone := yc_slot_gone c |}.
 
 Section Step.
   Variable answer : N -> N -> N.   (* the server's reply to a request on a channel *)
@@ -78,43 +108,51 @@ Section Step.
         let c := y_ch s n in
         match yc_wait c || yc_failed c, yc_prog c with
         | false, x :: rest =>
-            if y_dead s then
+            if y_dead s || yc_slot_gone c then
               (* the mailbox's receiver is gone: the send fails, the call returns an error
                  (check_recv_for_error: the I/O thread's verdict if one is queued, else
                  EventLoopDropped) - at once, nothing is handed over *)
               with_ch s n {| yc_prog := yc_prog c; yc_wait := false; yc_issued := yc_issued c;
                              yc_results := yc_results c; yc_mail := yc_mail c;
-                             yc_pend := yc_pend c; yc_replyq := yc_replyq c; yc_failed := true |}
+                             yc_pend := yc_pend c; yc_replyq := yc_replyq c; yc_failed := true;
+                             yc_srv_closed := yc_srv_closed c; yc_slot_gone := yc_slot_gone c |}
             else if N.of_nat (length (yc_mail c)) <? bound then
               with_ch s n {| yc_prog := rest; yc_wait := is_sync x; yc_issued := yc_issued c ++ [x];
                              yc_results := yc_results c; yc_mail := yc_mail c ++ [x];
-                             yc_pend := yc_pend c; yc_replyq := yc_replyq c; yc_failed := false |}
+                             yc_pend := yc_pend c; yc_replyq := yc_replyq c; yc_failed := false;
+                             yc_srv_closed := yc_srv_closed c; yc_slot_gone := yc_slot_gone c |}
             else s                                  (* mailbox full: the send blocks *)
         | _, _ => s
         end
     | ARecv n =>
         let c := y_ch s n in
         match yc_wait c, yc_replyq c with
-        | true, v :: rest =>
+        | true, RVal v :: rest =>
             (* a queued reply is delivered also when the sender is gone *)
             with_ch s n {| yc_prog := yc_prog c; yc_wait := false; yc_issued := yc_issued c;
                            yc_results := yc_results c ++ [v]; yc_mail := yc_mail c;
-                           yc_pend := yc_pend c; yc_replyq := rest; yc_failed := yc_failed c |}
+                           yc_pend := yc_pend c; yc_replyq := rest; yc_failed := yc_failed c;
+                           yc_srv_closed := yc_srv_closed c; yc_slot_gone := yc_slot_gone c |}
+        | true, RVerdict :: rest =>
+            (* the server closed the channel: the call fails with ServerClosedChannel *)
+            with_ch s n {| yc_prog := yc_prog c; yc_wait := false; yc_issued := yc_issued c;
+                           yc_results := yc_results c; yc_mail := yc_mail c;
+                           yc_pend := yc_pend c; yc_replyq := rest; yc_failed := true;
+                           yc_srv_closed := yc_srv_closed c; yc_slot_gone := yc_slot_gone c |}
         | true, [] =>
-            if y_dead s then
+            if y_dead s || yc_slot_gone c then
               (* empty and disconnected: the call returns an error *)
               with_ch s n {| yc_prog := yc_prog c; yc_wait := false; yc_issued := yc_issued c;
                              yc_results := yc_results c; yc_mail := yc_mail c;
-                             yc_pend := yc_pend c; yc_replyq := []; yc_failed := true |}
+                             yc_pend := yc_pend c; yc_replyq := []; yc_failed := true;
+                             yc_srv_closed := yc_srv_closed c; yc_slot_gone := yc_slot_gone c |}
             else s                                  (* nothing there yet: the recv blocks *)
         | _, _ => s
         end
     | ADrain n k =>
-        if y_dead s then s else
+        if y_dead s || yc_slot_gone (y_ch s n) then s else
         let c := y_ch s n in
-        {| y_ch := yupd (y_ch s) n {| yc_prog := yc_prog c; yc_wait := yc_wait c; yc_issued := yc_issued c;
-                                     yc_results := yc_results c; yc_mail := skipn k (yc_mail c);
-                                     yc_pend := yc_pend c; yc_replyq := yc_replyq c; yc_failed := yc_failed c |};
+        {| y_ch := yupd (y_ch s) n (ch_set_mail c (skipn k (yc_mail c)));
            y_outbuf := y_outbuf s ++ map (pair n) (firstn k (yc_mail c));
            y_outwire := y_outwire s; y_seen := y_seen s; y_inwire := y_inwire s; y_fail := false; y_dead := y_dead s |}
     | AWrite k =>
@@ -127,10 +165,9 @@ Section Step.
         | [] => s
         | (n, x) :: rest =>
             let c := y_ch s n in
-            {| y_ch := if is_sync x
-                       then yupd (y_ch s) n {| yc_prog := yc_prog c; yc_wait := yc_wait c; yc_issued := yc_issued c;
-                                              yc_results := yc_results c; yc_mail := yc_mail c;
-                                              yc_pend := yc_pend c ++ [snd x]; yc_replyq := yc_replyq c; yc_failed := yc_failed c |}
+            (* a request on a channel the server has closed is discarded *)
+            {| y_ch := if is_sync x && negb (yc_srv_closed c)
+                       then yupd (y_ch s) n (ch_set_pend c (yc_pend c ++ [snd x]))
                        else y_ch s;
                y_outbuf := y_outbuf s; y_outwire := rest; y_seen := y_seen s ++ [(n, x)]; y_inwire := y_inwire s; y_fail := false; y_dead := y_dead s |}
         end
@@ -139,26 +176,44 @@ Section Step.
         match yc_pend c with
         | [] => s
         | r :: rest =>
-            {| y_ch := yupd (y_ch s) n {| yc_prog := yc_prog c; yc_wait := yc_wait c; yc_issued := yc_issued c;
-                                         yc_results := yc_results c; yc_mail := yc_mail c;
-                                         yc_pend := rest; yc_replyq := yc_replyq c; yc_failed := yc_failed c |};
+            {| y_ch := yupd (y_ch s) n (ch_set_pend c rest);
                y_outbuf := y_outbuf s; y_outwire := y_outwire s;
-               y_seen := y_seen s; y_inwire := y_inwire s ++ [(n, answer n r)]; y_fail := false; y_dead := y_dead s |}
+               y_seen := y_seen s; y_inwire := y_inwire s ++ [(n, WReply (answer n r))]; y_fail := false; y_dead := y_dead s |}
         end
+    | ASrvClose n =>
+        let c := y_ch s n in
+        if yc_srv_closed c then s else
+        (* the server closes channel n: what it still owed on it is dropped, nothing follows *)
+        {| y_ch := yupd (y_ch s) n {| yc_prog := yc_prog c; yc_wait := yc_wait c; yc_issued := yc_issued c;
+                                      yc_results := yc_results c; yc_mail := yc_mail c; yc_pend := [];
+                                      yc_replyq := yc_replyq c; yc_failed := yc_failed c;
+                                      yc_srv_closed := true; yc_slot_gone := yc_slot_gone c |};
+           y_outbuf := y_outbuf s; y_outwire := y_outwire s; y_seen := y_seen s;
+           y_inwire := y_inwire s ++ [(n, WClose)]; y_fail := false; y_dead := y_dead s |}
     | ARead =>
         if y_dead s then s else
         match y_inwire s with
         | [] => s
-        | (n, v) :: rest =>
+        | (n, it) :: rest =>
             let c := y_ch s n in
-            if N.of_nat (length (yc_replyq c)) <? qcap then
-              {| y_ch := yupd (y_ch s) n {| yc_prog := yc_prog c; yc_wait := yc_wait c; yc_issued := yc_issued c;
-                                           yc_results := yc_results c; yc_mail := yc_mail c;
-                                           yc_pend := yc_pend c; yc_replyq := yc_replyq c ++ [v]; yc_failed := yc_failed c |};
-                 y_outbuf := y_outbuf s; y_outwire := y_outwire s; y_seen := y_seen s; y_inwire := rest; y_fail := false; y_dead := y_dead s |}
-            else
-              {| y_ch := y_ch s; y_outbuf := y_outbuf s; y_outwire := y_outwire s;
-                 y_seen := y_seen s; y_inwire := rest; y_fail := true; y_dead := y_dead s |}
+            let fail := {| y_ch := y_ch s; y_outbuf := y_outbuf s; y_outwire := y_outwire s; y_seen := y_seen s;
+                           y_inwire := rest; y_fail := true; y_dead := y_dead s |} in
+            if yc_slot_gone c then fail          (* a frame for a channel that is not open *)
+            else if N.of_nat (length (yc_replyq c)) <? qcap then
+              match it with
+              | WReply v =>
+                  {| y_ch := yupd (y_ch s) n (ch_set_replyq c (yc_replyq c ++ [RVal v]));
+                     y_outbuf := y_outbuf s; y_outwire := y_outwire s; y_seen := y_seen s; y_inwire := rest; y_fail := false; y_dead := y_dead s |}
+              | WClose =>
+                  (* the verdict for whoever calls, the slot - with what its mailbox held - is gone
+                     (the Channel.CloseOk the thread answers with is C09_effect's; not modelled here) *)
+                  {| y_ch := yupd (y_ch s) n {| yc_prog := yc_prog c; yc_wait := yc_wait c; yc_issued := yc_issued c;
+                                                yc_results := yc_results c; yc_mail := []; yc_pend := yc_pend c;
+                                                yc_replyq := yc_replyq c ++ [RVerdict]; yc_failed := yc_failed c;
+                                                yc_srv_closed := yc_srv_closed c; yc_slot_gone := true |};
+                     y_outbuf := y_outbuf s; y_outwire := y_outwire s; y_seen := y_seen s; y_inwire := rest; y_fail := false; y_dead := y_dead s |}
+              end
+            else fail                            (* the reply queue is full *)
         end
     | ADie =>
         {| y_ch := y_ch s; y_outbuf := y_outbuf s; y_outwire := y_outwire s;
@@ -170,7 +225,7 @@ End Step.
 
 Definition new_ychan (prog : list call) : ychan :=
   {| yc_prog := prog; yc_wait := false; yc_issued := []; yc_results := []; yc_mail := [];
-     yc_pend := []; yc_replyq := []; yc_failed := false |}.
+     yc_pend := []; yc_replyq := []; yc_failed := false; yc_srv_closed := false; yc_slot_gone := false |}.
 
 (* every caller with its program, nothing in flight *)
 Definition init_sys (progs : N -> list call) : sys :=
@@ -182,5 +237,5 @@ Definition init_sys (progs : N -> list call) : sys :=
    to the requests it has not read yet (on the wire, in the out-buffer, in the mailbox) *)
 Definition inflight (answer : N -> N -> N) (s : sys) (n : N) : list N :=
   let c := y_ch s n in
-  yc_replyq c ++ projc n (y_inwire s) ++ map (answer n) (yc_pend c) ++
+  rvals (yc_replyq c) ++ wvals (projc n (y_inwire s)) ++ map (answer n) (yc_pend c) ++
   map (answer n) (syncs (projc n (y_outwire s) ++ projc n (y_outbuf s) ++ yc_mail c)).
